@@ -470,6 +470,7 @@ RUN_PATH_MODULES = ("tdgl.solver.", "tdgl.finite_volume.", "tdgl.solution.data")
 def swallowed_errors(ctx):
     repo = ctx.repo
     seen = set()
+    used = {}
     n = 0
     for f in repo.all_functions():
         if not any((f.module.name + ".").startswith(m) or f.module.name == m for m in RUN_PATH_MODULES):
@@ -494,7 +495,11 @@ def swallowed_errors(ctx):
                     continue
                 key = (f.fq, norm(h.type) if h.type is not None else "bare")
                 seen.add(key)
-                ok = key in SWALLOWING_OK
+                # confirmed handlers are recognised by module and exception class (an "extract function" may move them), once each
+                mk = (f.module.name, key[1])
+                budget = sum(1 for k_ in SWALLOWING_OK if (k_[0].split(":")[0], k_[1]) == mk)
+                used[mk] = used.get(mk, 0) + 1
+                ok = key in SWALLOWING_OK or used[mk] <= budget
                 ctx.ob("R15.9", f"{f.qual}: `except {key[1]}` does not re-raise ({SWALLOWING_OK.get(key, 'NOT in the confirmed table')[:60]})", ok,
                        where=f.fq, construct=f"except {key[1]} in {f.qual} swallows the error", loc=loc(f, h),
                        message=f"{f.qual} catches `{key[1]}` and carries on ({'; '.join(norm(x)[:40] for x in h.body)[:100]}): the failure does not stop the run",
